@@ -158,6 +158,13 @@ def distance_taint(func):
     def is_t(e, depth=0):
         if depth > 8:
             return False
+        if depth == 0 and not isinstance(e, (ast.Name, ast.Constant)):
+            # an expression written in place is a distance form exactly like a named one
+            try:
+                if radial_degree(e, defs, coord_vec):
+                    return True
+            except Exception:
+                pass
         if isinstance(e, ast.Name):
             return e.id in tainted
         if isinstance(e, ast.Attribute):
@@ -209,7 +216,22 @@ def distance_taint(func):
 
 
 def check_pair_predicate(ctx, rid):
-    """pair-list predicate of Parser.forward (shared with C02: the selection must be rotation invariant)"""
+    """pair-list predicate of Parser.forward (shared with C02: the selection must be rotation invariant).
+    The predicate is decided from the syntax when the routine has the shape this analysis understands (product of ordering x real atoms x radial test, conditional
+    refinements examined); otherwise by interpreting the routine on concrete batches whose geometry distinguishes the cutoff sphere from the cutoff cube."""
+    from ..assembly import check_parser
+    n0 = len(ctx.findings)
+    try:
+        _check_pair_predicate_syntactic(ctx, rid)
+    except AnalysisError as e:
+        del ctx.findings[n0:]
+        ctx.note(f"pair predicate not in the recognised syntactic shape ({str(e)[:80]}); decided on interpreted batches") if hasattr(ctx, "note") else None
+        check_parser(ctx, rid, aspects=("pairs",))
+        return
+    check_parser(ctx, rid, aspects=("pairs",))
+
+
+def _check_pair_predicate_syntactic(ctx, rid):
     repo = ctx.repo
     bas = repo.mod(BASICS)
     pf = bas.func("Parser.forward")
